@@ -315,7 +315,14 @@ fn prop_history(c: &EditCase, ctx: &Ctx) -> PResult {
                 // the sub-mesh values handed in can only be copies of parsed ones (their table slot is private): a
                 // caller may have taken them from the part being edited or from any other part of the model
                 let donors: Vec<(usize, usize)> = mdl.lods.iter().enumerate().flat_map(|(dl, lod)| lod.parts.iter().enumerate().filter(|(_, part)| !part.submeshes.is_empty()).map(move |(dp, _)| (dl, dp))).collect();
-                for p in 0..n {
+                // every mesh of the LOD is resubmitted, in mesh order or (every other edit) in reverse: the result is
+                // a function of the ranges supplied, not of the order of the calls
+                let mut call_order: Vec<usize> = (0..n).collect();
+                if (sel >> 20) & 1 == 1 && n >= 2 {
+                    call_order.reverse();
+                    ctx.class("edit:meshes-resubmitted-in-reverse-order");
+                }
+                for p in call_order {
                     let new_mesh = new_meshes[p].clone();
                     let old = spec.lods[l][p].clone();
                     let old = &old;
